@@ -15,7 +15,11 @@ RULE = (
     "RuleDBForest(reverse=True/False) and 10 pack shapes (example pack, strategies with settings, generic strategy, "
     "symmetry, inferral, factory yielding strategies / ready rules / rules of another class — the latter forces "
     "reverse rules —, brute-force verification with settings, iterative, a strategy whose settings are containers: a "
-    "list and a dictionary with nested lists/dictionaries), a few sizes counted first so that lazily "
+    "list and a dictionary with nested lists/dictionaries, and two shapes built from strategy classes whose from_dict "
+    "POPS the settings it reads - the library's own convention - (harness/universes/c18_pop.py): ExpandAfter, one "
+    "configuration per letter, so that the rules of ONE specification hold several configurations of one strategy "
+    "class; several configurations of a popping union / product / verification strategy / factory in one pack), "
+    "a few sizes counted first so that lazily "
     "added empty rules exist; (tspec 13%) specifications of random table universes (reverse rules, equivalence of "
     "reverse rules, equivalence paths, verification rules with children); (gspec 5%) specifications built DIRECTLY "
     "from rule objects over random context-free grammar classes (harness/universes/c18_gram.py: unions, products with "
@@ -48,7 +52,13 @@ RULE = (
     "changed idx, reversed path, permuted rules, rules of empty classes removed so that get_rule re-adds them, renamed order key, permuted classes array). For every case the "
     "model and the implementation are compared on to_jsonable() (structurally), from_dict(J) (descriptor of the "
     "result or 'raised') and __eq__ in both directions. Non-trivial: specification with >= 4 rules, a rule that is "
-    "not a plain Rule/VerificationRule, a strategy with settings, a pack with >= 3 strategies, or a bijection."
+    "not a plain Rule/VerificationRule, a strategy with settings, a pack with >= 3 strategies, or a bijection. "
+    "SEVERAL ROUND TRIPS PER CASE IN ONE PROCESS: when a case has an `other` object (70% of the strategy cases - mostly "
+    "another configuration of the same class -, 60% of the packs, a quarter of the specifications and rules) that object "
+    "goes through to_jsonable/from_dict FIRST and must come back == itself; then x; then x's document is loaded a second "
+    "time and must give the same object (tags from_dict-pops-settings, several-configurations-of-one-strategy-class, "
+    "other-object-round-tripped-first). Worker processes are long-lived, so state kept by the loading code across "
+    "from_dict calls also meets the later cases of the same worker."
 )
 TECHNIQUE = (
     "Coq proof (structural induction over rule forms, dictionaries as association lists, decimal keys) + "
@@ -66,14 +76,28 @@ LEVEL_TEXT = (
     "strategies. Bijections: both specifications reproduced and every entry of the order map / index data preserved "
     "through the classes array and the decimal object keys (int(f'{n}') = n proved). Strategy equality is a function "
     "of kind (class) and settings (flags + further settings) only — how the instance was created is irrelevant. "
+    "SAME ENUMERATION (C18_roundtrip_same_enumeration, connected to C01's evaluation model Spec/Eval.v): for ANY type "
+    "of term tables, any labelling of the classes and any semantics `sem` turning a rule object into its term operator "
+    "that (assumption on strategies) is a deterministic function of the rule form, classes, idx and the strategies' "
+    "kind + settings - i.e. does not read __orig_class__ - and whose operators depend on their providers only through "
+    "the values returned, the reloaded specification has the same root, the same classes in the same order and `eval` "
+    "returns the same table for every fuel, class and size; more generally any two specifications of the same "
+    "structure do (C18_same_structure_same_enumeration), and every per-rule observable that does not read "
+    "__orig_class__ (get_equation, formal_step ..) has the same value class by class "
+    "(C18_roundtrip_same_rule_observables). Applied examples also cover a StrategyFactory class (no flags written) and "
+    "the AtomStrategy, alone, in a pack with two configurations of the factory, in a rule and in a specification. "
     "The hand-written model is tied to the code by comparing to_jsonable, from_dict and == on real objects."
 )
 LEVEL_NOTE = (
     "Trusted: Coq kernel, extraction + OCaml driver, the harness (descriptor extraction from Python objects, "
     "JSON<->sx conversion, tables of user behaviour). Modelled not verified: the (de)serialisation code itself. "
     "Not modelled: labels (_enforce_labels), _group_equiv_in_path (from_dict uses group_equiv=False), the warning for "
-    "children that differ from the saved ones, AlreadyVerified, ProofTree JSON; counts/objects/equations of the "
-    "reloaded object are compared by the oracle only (they are functions of the reproduced rules). Bijections: that the "
+    "children that differ from the saved ones, AlreadyVerified, ProofTree JSON; that counts/objects/equations of the "
+    "reloaded object agree is C18_roundtrip_same_enumeration / _same_rule_observables UNDER the stated assumption that "
+    "a rule's counting/generating semantics is a function of its form, classes and strategies' kind + settings (a "
+    "strategy with hidden state that to_jsonable does not write is outside it); on the real code they are compared by "
+    "the oracle. The model has no state shared between from_dict calls: an implementation that keeps such state "
+    "(e.g. interning loaded strategies) is only met by cases that load several configurations in one process. Bijections: that the "
     "maps of the reloaded bijection equal the original's is decided by the oracle on all objects up to the size that "
     "exercises the whole order map (the theorem states that every entry of order map and index data is reproduced; "
     "ParseTreeMap is not modelled here). Index data reaches no map of the five modelled rule forms "
@@ -92,6 +116,8 @@ ASSUMPTIONS = [
     "class codec contract: from_dict(to_jsonable(c)) == c; class __eq__ is structural",
     "strategy contract: from_dict(d) restores flags and settings that to_jsonable wrote (example.py's strategies only for default flags)",
     "decomposition_function is deterministic and independent of non-setting instance attributes",
+    "C18_roundtrip_same_enumeration: the term operator of a rule (constructor, shifts, children) is a deterministic "
+    "function of rule form, classes, idx and the strategies' kind + settings, and extensional in its providers",
     "round-trip theorems for specifications assume the invariants __init__ establishes: one rule per class keyed by its own class, "
     "children of every rule present (lazily added empty rules), root present",
 ]
@@ -102,6 +128,7 @@ SPECS = ("wspec", "tspec", "gspec")
 
 
 def _U():
+    from harness.universes import c18_pop  # noqa: F401  (registers its classes in c18_univ.STRATS)
     from harness.universes import c18_univ
 
     return c18_univ
@@ -594,7 +621,20 @@ def build(case):
             x = _find_bij(case)
         except Exception:  # pylint: disable=broad-except
             x = None
-    res = {"kind": kind, "x": x, "J": None, "y": y, "must_raise": False, "mutated": False}
+    res = {"kind": kind, "x": x, "J": None, "y": y, "must_raise": False, "mutated": False, "pre": None}
+    honours = True
+    if kind == "strategy" and case.get("other"):
+        # example.py's own strategies ignore the dictionary (from_dict mode 0): with non-default flags they
+        # do not honour the from_dict contract (ASSUMPTIONS), so their round trip is not demanded
+        honours = not (U.STRATS[case["other"][0]][1] == 0 and case["other"][1])
+    if x is not None and y is not None and kind != "bij" and honours:
+        # several round trips per case in one process: the OTHER object (often another configuration of
+        # the same strategy classes) goes through to_jsonable / from_dict BEFORE x does
+        try:
+            y2 = _from_dict(kind, jcopy(y.to_jsonable()))
+            res["pre"] = [bool(y2 == y), bool(y == y2)]
+        except Exception as ex:  # pylint: disable=broad-except
+            res["pre"] = "raised %s: %s" % (type(ex).__name__, str(ex)[:120])
     if x is not None:
         J = jcopy(x.to_jsonable())
         if case.get("mut"):
@@ -867,6 +907,26 @@ def _bij_tags(case, x):
     return tags
 
 
+def _config_tags(J):
+    """does the document hold a strategy class whose from_dict pops / several configurations of one class?"""
+    from harness.universes import c18_pop
+
+    sites = []
+    _sites(J, sites)
+    conf = {}
+    for k, d in sites:
+        if k == "strategy":
+            conf.setdefault((d.get("class_module"), d.get("strategy_class")), set()).add(json.dumps(d, sort_keys=True))
+    tags = []
+    if any(n in c18_pop.POP for _, n in conf):
+        tags.append("from_dict-pops-settings")
+    if any(len(v) >= 2 for v in conf.values()):
+        tags.append("several-configurations-of-one-strategy-class")
+        if any(len(v) >= 2 and n in c18_pop.POP for (_, n), v in conf.items()):
+            tags.append("several-configurations-of-a-popping-class")
+    return tags
+
+
 def impl(case):
     b = build(case)
     kind, x, y, J = b["kind"], b["x"], b["y"], b["J"]
@@ -893,6 +953,13 @@ def _impl_from(b, case):
         out.append([1])
     else:
         out.append([0, _desc(Ctx(), kind, z)])
+        # ... and the same document is loaded a second time: the result must not depend on what was loaded before
+        try:
+            z2 = _from_dict(kind, J)
+            obs["second"] = True if _desc(Ctx(), kind, z2) == _desc(Ctx(), kind, z) else "a second from_dict of the same document gives another object"
+        except Exception as ex:  # pylint: disable=broad-except
+            obs["second"] = "a second from_dict of the same document raised %s" % type(ex).__name__
+    obs["pre"] = b.get("pre")
     tags = [kind, "mutated" if b["mutated"] else "pristine"]
     if kind != "bij":
         out += [int(bool(x == y)), int(bool(y == x))]
@@ -922,6 +989,9 @@ def _impl_from(b, case):
         tags += _bij_tags(case, x)
     if obs["raised"]:
         tags.append("raised")
+    tags += _config_tags(jcopy(x.to_jsonable()))
+    if b.get("pre") is not None:
+        tags.append("other-object-round-tripped-first")
     # observations for the oracle
     if z is not None:
         obs["eq"] = [bool(z == x), bool(x == z)] if kind != "bij" else None
@@ -971,6 +1041,10 @@ def oracle(case, res):
     if obs is None:
         return None
     kind = case["kind"]
+    if obs.get("pre") is not None and obs["pre"] != [True, True]:
+        return "round trip of the OTHER object of the case (loaded first, in the same process): from_dict(to_jsonable(y)) == y is %r" % (obs["pre"],)
+    if obs.get("second") not in (None, True):
+        return obs["second"]
     if obs["must_raise"] and not obs["raised"]:
         return "malformed JSON (%r) was loaded without an error" % (case.get("mut"),)
     if not obs["mutated"]:
@@ -1052,6 +1126,8 @@ def _gen_strategy(rng, alias_ok=True):
     for f in ("ignore_parent", "inferrable", "possibly_empty", "workable"):
         if rng.random() < 0.25:
             fl[f] = rng.random() < 0.5
+    if rng.random() < 0.22:
+        return _gen_pop_strategy(rng, fl)
     if r < 0.06:
         return ["ExpansionStrategy", {}, 0]
     if r < 0.10:
@@ -1087,6 +1163,30 @@ def _gen_strategy(rng, alias_ok=True):
     if r < 0.95:
         return ["ExpandFactory", {"max_prefix": rng.randint(0, 9), "as_rule": rng.random() < 0.5}, 0]
     return ["ParentExpandFactory", {"descending": rng.random() < 0.5}, 0]
+
+
+def _gen_pop_strategy(rng, fl):
+    """the classes of harness/universes/c18_pop.py: from_dict pops the settings it reads"""
+    r = rng.random()
+    if r < 0.3:
+        return ["PopExpandOrdered", dict(fl, descending=rng.random() < 0.5), 0]
+    if r < 0.5:
+        return ["ExpandAfter", dict(fl, last=rng.choice(["", "a", "b", "c"])), 0]
+    if r < 0.7:
+        kw = dict(fl, max_remove=rng.randint(1, 3))
+        if rng.random() < 0.5:
+            kw["tag"] = rng.choice(["", "x", "a b"])
+        return ["PopRemoveFront", kw, 0]
+    if r < 0.85:
+        kw = {"min_prefix": rng.randint(0, 4)}
+        if rng.random() < 0.5:
+            kw["note"] = rng.choice(["brute", "n", ""])
+        if rng.random() < 0.3:
+            kw["exact"] = True
+        if rng.random() < 0.3:
+            kw["ignore_parent"] = True
+        return ["PopBruteVerified", kw, 0]
+    return ["PopExpandFactory", {"max_prefix": rng.randint(0, 9), "as_rule": rng.random() < 0.5}, 0]
 
 
 def _gen_containers(rng):
@@ -1132,7 +1232,7 @@ def _variant(rng, s):
 
 
 def _gen_pack(rng, shape=None):
-    shape = shape if shape is not None else rng.choice([0, 1, 2, 3, 4, 5, 6, 7, 8, 8, 8, 9])
+    shape = shape if shape is not None else rng.choice([0, 1, 2, 3, 4, 5, 6, 7, 8, 8, 8, 9, 10, 11, 11])
     ps = {"initial": [], "inferral": [], "expansion": [], "ver": [_s("AtomStrategy")], "sym": [], "iterative": 0,
           "name": "pack %d" % shape}
     if shape == 0:      # the example pack
@@ -1160,6 +1260,19 @@ def _gen_pack(rng, shape=None):
                   expansion=[[_s("ExpandOrdered", descending=False, inferrable=False)], [_s("ExpansionStrategy")]])
     elif shape == 9:    # container-valued settings
         ps.update(initial=[_s("RemoveFrontOfPrefix")], expansion=[[_s("PermExpand", **_gen_containers(rng))]])
+    elif shape == 10:   # one configuration PER LETTER of a class whose from_dict pops: a specification needs them all
+        ps.update(initial=[_s("RemoveFrontOfPrefix")],
+                  expansion=[[_s("ExpandAfter", last=x) for x in rng.sample(["", "a", "b", "c"], 4)]])
+    elif shape == 11:   # several configurations of every popping class
+        k = rng.randint(2, 3)
+        ps.update(initial=[_s("PopRemoveFront", max_remove=1, tag=rng.choice(["", "t"]))] +
+                          ([_s("PopRemoveFront", max_remove=2)] if rng.random() < 0.5 else []),
+                  expansion=[[_s("PopExpandOrdered", descending=rng.random() < 0.5)],
+                             [_s("PopExpandFactory", max_prefix=0, as_rule=rng.random() < 0.5),
+                              _s("PopExpandFactory", max_prefix=9, as_rule=rng.random() < 0.5)],
+                             [_s("PopExpandOrdered", descending=True), _s("PopExpandOrdered", descending=False)]],
+                  ver=[_s("AtomStrategy"), _s("PopBruteVerified", min_prefix=k, exact=True),
+                       _s("PopBruteVerified", min_prefix=k + 1, note="b2")])
     else:               # random bag
         k = lambda: [x for x in (_gen_strategy(rng, alias_ok=False) for _ in range(rng.randint(0, 3)))]  # noqa: E731
         ps.update(initial=k(), inferral=k(), expansion=[k() for _ in range(rng.randint(0, 4))], ver=k(), sym=k(),
@@ -1189,7 +1302,7 @@ def _gen_cls1(rng, shape=None):
 
 
 def _gen_wspec(rng):
-    shape = rng.choice([0, 0, 1, 2, 3, 4, 5, 6, 6, 7, 9])
+    shape = rng.choice([0, 0, 1, 2, 3, 4, 5, 6, 6, 7, 9, 10, 10, 11])
     db = rng.randrange(4)
     if shape == 6 and rng.random() < 0.8:
         db = 2
@@ -1262,7 +1375,8 @@ def _gen_bij(rng):
         p1, p2 = rng.choice(group), rng.choice(group)
         if (len(p1) > 1 and len(p2) > 1 and p1 != p2) or rng.random() < 0.25:
             break
-    sh1, sh2 = rng.choice([(0, 0), (0, 0), (1, 0), (0, 1), (1, 1), (7, 0), (4, 0), (0, 4), (3, 0), (9, 0), (0, 9), (9, 9)])
+    sh1, sh2 = rng.choice([(0, 0), (0, 0), (1, 0), (0, 1), (1, 1), (7, 0), (4, 0), (0, 4), (3, 0), (9, 0), (0, 9), (9, 9),
+                             (10, 0), (0, 10), (10, 10), (11, 10)])
     return {"kind": "bij", "how": "construct",
             "c1": ["AvoidingWithPrefix", "", [p.translate(tr) for p in p1], alph, 0],
             "c2": ["AvoidingWithPrefix", "", p2, "ab", 0],
